@@ -85,12 +85,13 @@ def rule_effects(ctx, repo):
     """Effect rule: the restore paths only re-link objects; they do not write the numeric content of the solver arrays.
     (The next step reads x, y AND f -- the trapezoidal rule uses the stored derivative of the previous step.)"""
     E = Effects(repo)
-    for what, ci, fn, allowed in (("snapshot.load_ss", SNAP, repo.func(SNAP, "load_ss"), ()),
+    for what, ci, fn, allowed in (("snapshot.save_ss", SNAP, repo.func(SNAP, "save_ss"), ()),
+                                  ("snapshot.load_ss", SNAP, repo.func(SNAP, "load_ss"), ()),
                                   ("fix_view_arrays", SYSTEM, repo.func(SYSTEM, "fix_view_arrays"), ()),
                                   ("TDS.init_resume",) + repo.method("TDS", "init_resume", TDS) + (("dae.t",),)):
         ws = [w for w in E.writes(ci, fn) if w[2] not in allowed]
         ctx.check(not ws, "C14.effects", what, "no write to x/y/f/g/v/e content reachable (callee edges resolved: %d)" % E.resolved_calls,
-                  "the restore path changes solver state: %s" % "; ".join(fmt_effect(w) for w in ws[:3]),
+                  "the save / restore path changes solver state: %s" % "; ".join(fmt_effect(w) for w in ws[:3]),
                   repo.W(ci, fn) if not isinstance(ci, str) else "%s:%d" % (ci, fn.lineno))
 
 
